@@ -1095,3 +1095,52 @@ func reachesWithout(ld *loopDesc, x, avoid *ssa.BasicBlock) bool {
 	}
 	return false
 }
+
+// everyFlaggedEdgeInterpolated (T10/U10): the kernel computes the crossing point of every lattice
+// edge its edge table flags for the configuration - edge i iff bit i, and nothing else decides.
+// A loop that stops "once both points are known" is right for the configurations with one
+// segment and leaves points of the saddle configurations (four flagged edges) at the zero value:
+// segments to the coordinate origin, or dropped by the degenerate filter. The kernel is executed
+// edge by edge; the condition of each interpolation call may test one bit of the table entry.
+func everyFlaggedEdgeInterpolated(ctx *Ctx, r *Report, rule string, fn *ssa.Function, interp string, nEdges int) {
+	key := fn.Name() + "|every-flagged-edge-is-interpolated"
+	ev := newEval(ctx, interp, "Degenerate")
+	ev.evalRoot(fn)
+	if ev.Exceeded {
+		r.undecided(rule, key, fn.Pos(), "evaluation budget exceeded")
+		return
+	}
+	es := eventsOf(ev, "."+interp)
+	if len(es) == 0 {
+		r.undecided(rule, key, fn.Pos(), "no call of "+interp)
+		return
+	}
+	isMask := func(x *Term) bool { return x.Op == "call" && x.S == "op&" }
+	bad := ""
+	masks := map[string]int{}
+	for k, e := range es {
+		if e.Cond == nil {
+			continue // interpolated unconditionally
+		}
+		seen := map[string]bool{}
+		for _, m := range findSub(e.Cond, isMask) {
+			seen[m.Key()] = true
+		}
+		if len(seen) > 1 && len(bad) < 300 {
+			bad += fmt.Sprintf(" interpolation #%d depends on %d bit tests (an edge is interpolated iff its own bit is set);", k+1, len(seen))
+		}
+		for m := range seen {
+			masks[m]++
+		}
+	}
+	for m, c := range masks {
+		if c > 1 && len(bad) < 300 {
+			bad += fmt.Sprintf(" %d interpolations test the same bit %s;", c, shortKey(m, 60))
+		}
+	}
+	if len(es) != nEdges {
+		bad += fmt.Sprintf(" %d interpolation calls on the unrolled loop, %d edges;", len(es), nEdges)
+	}
+	r.check(rule, key, fn.Pos(), bad == "", fmt.Sprintf("%d edges, each interpolated under a test of one bit of the edge table entry;%s", len(es), bad))
+	r.floor(rule, 1)
+}
